@@ -565,3 +565,131 @@ func TestC04Exit(t *testing.T) {
 		}
 	})
 }
+
+// ---- trees: grouping by precedence instead of explicit parentheses -----------
+
+// evalTree is the reference evaluation of an arithmetic tree: every operation
+// rounds its result to 34 digits.
+func evalTree(n *ref.Node) (*big.Rat, bool) {
+	switch n.Kind {
+	case "num":
+		r, ok := ref.RatOf(n.Val)
+		return r, ok
+	case "paren":
+		return evalTree(n.Kids[0])
+	case "pre":
+		r, ok := evalTree(n.Kids[0])
+		if !ok {
+			return nil, false
+		}
+		return new(big.Rat).Neg(r), true
+	case "bin":
+		a, ok1 := evalTree(n.Kids[0])
+		b, ok2 := evalTree(n.Kids[1])
+		if !ok1 || !ok2 {
+			return nil, false
+		}
+		switch n.Op {
+		case "+":
+			return ref.RoundSig(new(big.Rat).Add(a, b), 34), true
+		case "-":
+			return ref.RoundSig(new(big.Rat).Sub(a, b), 34), true
+		case "*":
+			return ref.RoundSig(new(big.Rat).Mul(a, b), 34), true
+		case "/":
+			if b.Sign() == 0 {
+				return nil, false
+			}
+			return ref.RoundSig(new(big.Rat).Quo(a, b), 34), true
+		case "%":
+			if b.Sign() == 0 {
+				return nil, false
+			}
+			if len(new(big.Int).Abs(ref.TruncRat(new(big.Rat).Quo(a, b))).String()) > 34 {
+				return nil, false
+			}
+			return ref.RemTrunc(a, b), true
+		}
+	}
+	return nil, false
+}
+
+type treeCase struct {
+	Tree *ref.Node `json:"tree"`
+}
+
+func checkTree(c treeCase) string {
+	want, ok := evalTree(c.Tree)
+	if !ok {
+		return ""
+	}
+	f := "[" + c.Tree.Text() + "]"
+	out := obs.EvalText(f, nil)
+	arr, isArr := out.Val.([]interface{})
+	if out.Panic != nil || out.Err != nil || !isArr || len(arr) != 1 {
+		return fmt.Sprintf("%s -> %s", f, out)
+	}
+	got, isNum := obs.Rat(arr[0])
+	if !isNum || got.Cmp(want) != 0 {
+		return fmt.Sprintf("%s = %s, want exactly %s (every operation rounds to 34 digits)", f, obs.Show(arr[0]), ref.DecString(want))
+	}
+	return ""
+}
+
+func init() {
+	h.RegisterReplay("c04-tree", func(raw json.RawMessage) string {
+		c, err := h.Decode[treeCase](raw)
+		if err != nil {
+			return "bad replay: " + err.Error()
+		}
+		return checkTree(c)
+	})
+}
+
+func genArithTree(t *rapid.T, depth int) *ref.Node {
+	if depth <= 0 || rapid.IntRange(0, 4).Draw(t, "leaf") == 0 {
+		d := genOperand(t, "v")
+		lit := d.Coef + "e" + strconv.Itoa(d.Exp)
+		n := &ref.Node{Kind: "num", Val: lit, Src: lit}
+		if d.Neg {
+			return &ref.Node{Kind: "pre", Op: "-", Kids: []*ref.Node{n}}
+		}
+		return n
+	}
+	op := rapid.SampledFrom([]string{"+", "-", "*", "/", "%", "+", "*"}).Draw(t, "op")
+	lv := ref.BinLevel[op]
+	l, r := genArithTree(t, depth-1), genArithTree(t, depth-1)
+	return &ref.Node{Kind: "bin", Op: op, Kids: []*ref.Node{atLevel(l, lv), atLevel(r, lv+1)}}
+}
+
+// TestC04Trees: arithmetic trees printed with parentheses only where the grammar requires them.
+func TestC04Trees(t *testing.T) {
+	run := h.Begin("C04", "trees", "rapid: arithmetic expression trees (depth<=3 over + - * / % and unary minus, operands as in pairs) printed with parentheses only where precedence / associativity require them (a*b+c, a-b*c/d, ...); oracle: the reference evaluates the tree bottom-up and rounds every operation to 34 digits; non-trivial: >=2 operators of different precedence without parentheses; distinct by formula")
+	defer run.End(t)
+	h.RapidSetup(h.N(8000, 1000000), "c04trees")
+	rapid.Check(t, func(rt *rapid.T) {
+		tree := genArithTree(rt, rapid.IntRange(1, 3).Draw(rt, "depth"))
+		c := treeCase{Tree: tree}
+		if _, ok := evalTree(tree); !ok {
+			run.Class("outside-domain")
+			return
+		}
+		text := tree.Text()
+		levels := map[int]bool{}
+		parens := false
+		tree.Walk(func(n *ref.Node) {
+			if n.Kind == "bin" {
+				levels[ref.BinLevel[n.Op]] = true
+			}
+			if n.Kind == "paren" {
+				parens = true
+			}
+		})
+		run.CountKey(text, len(levels) >= 2 && !parens, "")
+		run.Sample("tree", text)
+		if msg := checkTree(c); msg != "" {
+			run.Pending("trees", "c04-tree", c, msg)
+			rt.Fatalf("%s", msg)
+		}
+	})
+}
